@@ -783,6 +783,27 @@ pub fn run_workload(sub: u64, only_leg: Option<&str>, acc: &mut Acc, ctx: &Ctx, 
         let _ = std::fs::remove_dir_all(&big);
     }
 
+    // ---- standard input among the haystacks while a preprocessor (or -z) is configured -------
+    // (standard input is searched as it is: no command is run for it, no diagnostic, same status)
+    if want("stdin-with-pre") && rng.chance(1, 6) {
+        let text = gen_text(&mut rng, 1 + Rng::new(sub ^ 0x51D).below(30), [0, 1, 3][Rng::new(sub ^ 0x51E).below(3)]);
+        let how: &[&str] = [&["--pre", "/verif/target/release/childstub"][..], &["-z"][..], &["--pre", "/verif/target/release/childstub", "--pre-glob", "*"][..]][rng.below(3)];
+        for paths in [&["-"][..], &["w", "-"][..], &[][..]] {
+            let common: Vec<String> = ["--no-config", "--color=never", "-j1", "--sort=path", "-n"].iter().map(|s| s.to_string()).collect();
+            let with: Vec<String> = common.iter().cloned().chain(how.iter().map(|s| s.to_string())).chain(["foo".to_string()]).chain(paths.iter().map(|s| s.to_string())).collect();
+            let without: Vec<String> = common.iter().cloned().chain(["foo".to_string()]).chain(paths.iter().map(|s| s.to_string())).collect();
+            let a = ctx.run(&cwd, &RunSpec { args: with.clone(), plan: vec!["noop=1".into()], stdin: Some(text.clone()), ..RunSpec::default() }, 30);
+            let b = ctx.run(&cwd, &RunSpec { args: without.clone(), plan: vec!["noop=1".into()], stdin: Some(text.clone()), ..RunSpec::default() }, 30);
+            acc.evals += 2;
+            acc.faults.inc("stdin-among-the-haystacks-with-a-preprocessor-configured");
+            digest = digest_out(digest_out(digest, &a), &b);
+            // (the unscripted stub copies files as they are, so the other haystacks print the same)
+            if a.stdout != b.stdout || a.code != b.code || a.stderr != b.stderr {
+                acc.violation("C15", "stdin-with-preprocessor", format!("rg {:?} with text on standard input: exit {} stderr {:?} ({} bytes of output); without the preprocessor flags exit {} ({} bytes)", with, a.code, show(&a.stderr), a.stdout.len(), b.code, b.stdout.len()), sub, replay_body(sub, &w, "stdin-with-pre", &RunSpec { args: with.clone(), ..RunSpec::default() }, Some(&b), &a, json!({"stdin": show(&text), "without": without})));
+            }
+        }
+    }
+
     // ---- flag wiring: a flag followed by its negation is no flag; the last one wins ------
     if want("flag-wiring") && rng.chance(1, 2) {
         // (positive spelling, negation); the negation restores the default
